@@ -25,7 +25,7 @@ def _prod(s):
 # leaves
 # ------------------------------------------------------------------------------------------
 @st.composite
-def leaf(draw, shape, cond=None, force_cond=False, onto=False, inv=True, numinv=True, big=True):
+def leaf(draw, shape, cond=None, force_cond=False, onto=False, inv=True, numinv=True, big=True, only=None):
     shape = tuple(shape)
     kinds = []
     if not (cond is not None and force_cond):
@@ -46,7 +46,7 @@ def leaf(draw, shape, cond=None, force_cond=False, onto=False, inv=True, numinv=
             kinds += ["BNAF"]
     if cond is not None:
         kinds += ["AdditiveCondition"] * (3 if force_cond else 1)
-    k = draw(st.sampled_from(kinds))
+    k = only if only is not None else draw(st.sampled_from(kinds))
     s = {"k": k, "shape": list(shape), "seed": draw(SEEDS)}
     conditional_kinds = ("AdditiveCondition", "Planar", "Coupling", "MAF", "BNAF")
     if k in conditional_kinds and cond is not None and (force_cond or k == "AdditiveCondition" or draw(st.booleans())):
@@ -95,12 +95,31 @@ def leaf(draw, shape, cond=None, force_cond=False, onto=False, inv=True, numinv=
 LEAF_SHAPES = st.sampled_from([(), (1,), (2,), (3,), (4,), (2, 3), (3, 1), (2, 1, 2)])
 
 
+ALL_LEAF_KINDS = ["Affine", "Loc", "Scale", "TriangularAffine", "Exp", "SoftPlus", "Tanh", "LeakyTanh", "Identity",
+                  "Flip", "Permute", "AdditiveCondition", "RQS", "Planar", "Coupling", "MAF", "BNAF"]
+
+
 @st.composite
-def any_leaf(draw, inv=True, numinv=True):
-    """A leaf of the catalogue at a drawn shape (conditional or not)."""
-    shape = draw(LEAF_SHAPES)
+def any_leaf(draw, inv=True, numinv=True, kinds=None):
+    """A leaf of the catalogue: kind first (uniform over the catalogue), then a compatible shape."""
+    pool = [k for k in (kinds or ALL_LEAF_KINDS) if numinv or k != "BNAF"]
+    k = draw(st.sampled_from(pool))
     cond = draw(st.sampled_from([None, None, (2,), (1,), (2, 2), ()]))
-    return draw(leaf(shape, cond, force_cond=False, inv=inv, numinv=numinv))
+    if k == "RQS":
+        shape = ()
+    elif k in ("TriangularAffine", "Planar", "MAF"):
+        shape = (draw(st.integers(1, 4)),)
+    elif k == "Coupling":
+        shape = (draw(st.integers(2, 4)),)
+    elif k == "BNAF":
+        shape = (draw(st.integers(1, 3)),)
+    else:
+        shape = draw(LEAF_SHAPES)
+    if k == "AdditiveCondition" and cond is None:
+        cond = (2,)
+    if k in ("Planar", "Coupling", "MAF", "BNAF") and cond is not None and len(cond) != 1:
+        cond = (2,)
+    return draw(leaf(shape, cond, force_cond=False, inv=inv, numinv=numinv, only=k))
 
 
 # ------------------------------------------------------------------------------------------
@@ -297,3 +316,27 @@ def inputs(draw, n=8):
 
 
 PSCALES = st.sampled_from([0.0, 0.1, 0.3, 1.0, 1.0, 2.0])
+
+
+@st.composite
+def flow_spec(draw, max_dim=3, factories=None):
+    from vf.build import FACTORIES
+
+    f = draw(st.sampled_from(factories or FACTORIES))
+    dim = draw(st.integers(2 if f == "coupling_flow" else 1, max_dim))
+    s = {"factory": f, "dim": dim, "cond_dim": draw(st.sampled_from([None, None, 2, 1])),
+         "invert": draw(st.booleans()), "layers": draw(st.integers(1, 3)), "key": draw(st.integers(0, 999)),
+         "pscale": draw(st.sampled_from([0.0, 0.1, 0.3, 0.3, 1.0])), "pseed": draw(st.integers(0, 999))}
+    if f in ("coupling_flow", "masked_autoregressive_flow"):
+        s["transformer"] = draw(st.sampled_from([None, None, "rqs", "affine", "rqs_asym"]))
+        s["width"] = draw(st.sampled_from([2, 6]))
+        s["depth"] = draw(st.integers(0, 2))
+    elif f == "block_neural_autoregressive_flow":
+        s["depth"] = draw(st.integers(0, 2))
+        s["block_dim"] = draw(st.integers(1, 3))
+    elif f == "planar_flow":
+        s["negative_slope"] = draw(st.sampled_from([0.1, 0.5, 1.0, None]))
+    elif f == "triangular_spline_flow":
+        s["knots"] = draw(st.integers(1, 6))
+        s["tanh_max_val"] = draw(st.sampled_from([1.0, 3.0]))
+    return s
